@@ -4,6 +4,7 @@ import TsVerif.C14.Props
 #print axioms TsVerif.C14.refToken_none
 #print axioms TsVerif.C14.refToken_rules
 #print axioms TsVerif.C14.lexScan_sound
+#print axioms TsVerif.C14.lexScan_flat
 #print axioms TsVerif.C14.refTokenize_progress
 #print axioms TsVerif.C14.tokenize_increasing
 #print axioms TsVerif.C14.keyword_whole_word
